@@ -21,6 +21,9 @@ pub struct ReplayFile {
     pub detail: String,
     pub fault_trace: Vec<String>,
     pub original_steps: usize,
+    /// selector used by oracles that sample or generate inside the judgement (restriction
+    /// replay candidates, matcher walks): part of the replay so that re-judging is identical
+    pub pick: u64,
 }
 
 impl ReplayFile {
@@ -36,6 +39,7 @@ impl ReplayFile {
             "observed": self.detail,
             "fault_trace": self.fault_trace,
             "original_steps": self.original_steps,
+            "aux_pick": format!("{:016x}", self.pick),
             "format": "explicit delivered schedule: T=set wall clock (ms), F=frame (hex), X=restart soft|hard",
         })
     }
@@ -56,6 +60,11 @@ impl ReplayFile {
             detail: v.get("observed").and_then(|x| x.as_str()).unwrap_or("").to_string(),
             fault_trace: Vec::new(),
             original_steps: v.get("original_steps").and_then(|x| x.as_u64()).unwrap_or(0) as usize,
+            pick: v
+                .get("aux_pick")
+                .and_then(|x| x.as_str())
+                .and_then(|x| u64::from_str_radix(x, 16).ok())
+                .unwrap_or_else(|| crate::rng::derive(v.get("seed").and_then(|x| x.as_u64()).unwrap_or(0), "aux", 0)),
         })
     }
     pub fn load(p: &Path) -> Result<ReplayFile, String> {
